@@ -70,6 +70,10 @@ EmitAll ==
          \A a \in Vals(cas.lt) :
            LET r == UnCase(cas.op, cas.lt, a) IN
            r.ok => Out([k |-> "un", op |-> cas.op, lt |-> cas.lt, a |-> a, t |-> r.t.n, v |-> r.v, cs |-> CharSigned])
+    [] cas.kind = "bincast" ->     \* (mt)a op (mt)b : both operands are results of narrowing conversions (not fresh loads)
+         \A a \in Vals(cas.lt), b \in Vals(cas.lt) :
+           LET r == BinCase(cas.op, cas.mt, cas.mt, Conv(cas.mt, a), Conv(cas.mt, b)) IN
+           r.ok => Out([k |-> "bincast", op |-> cas.op, lt |-> cas.lt, mt |-> cas.mt, rt |-> cas.mt, a |-> a, b |-> b, t |-> r.t.n, v |-> r.v, cs |-> CharSigned])
     [] cas.kind = "cast2" ->      \* (rt)(mt)a : a narrowing conversion followed by another conversion
          \A a \in Vals(cas.lt) :
            LET m == ConvTo(TyOf(cas.mt), AsRV(cas.lt, a))
@@ -100,6 +104,8 @@ Cases ==
   \cup {[kind |-> "cast", op |-> "cast", lt |-> l, rt |-> r] : l \in Types, r \in Types}
   \cup {[kind |-> "cast2", op |-> "cast", lt |-> l, mt |-> m, rt |-> r] : l \in {"int", "uint", "long", "ulong"},
             m \in {"bool", "char", "schar", "uchar", "short", "ushort", "int", "uint"}, r \in Types \cup FTypes}
+  \cup {[kind |-> "bincast", op |-> o, lt |-> l, mt |-> m, rt |-> m] : o \in BinOpsC, l \in {"int", "ulong"},
+            m \in {"bool", "char", "schar", "uchar", "short", "ushort"}}
   \cup {[kind |-> "f2i", op |-> "cast", lt |-> l, rt |-> r] : l \in FTypes, r \in Types}
   \cup {[kind |-> "i2f", op |-> "cast", lt |-> l, rt |-> r] : l \in Types, r \in FTypes}
   \cup {[kind |-> "fbin", op |-> o, lt |-> l, rt |-> r] : o \in {"+", "-", "*", "/", "<", "<=", ">", ">=", "==", "!="},
@@ -116,8 +122,8 @@ InSlice(c) == IF c.kind = "fbin" THEN Hash(c) % NPartsF = Part % NPartsF ELSE Ha
 
 (* the second program of C_PROGS has unsigned plain char: only cases mentioning char differ *)
 OInit == /\ cpid \in 1..Len(CProgs)
-         /\ cas \in {c \in Cases : c.kind \in {"cast", "un", "cast2", "f2i", "i2f"} \/ InSlice(c)}     \* conversions and unary ops are always enumerated completely
-         /\ (cpid > 1 => "char" \in {cas.lt, cas.rt} \/ (cas.kind = "cast2" /\ cas.mt = "char"))
+         /\ cas \in {c \in Cases : c.kind \in {"cast", "un", "cast2", "f2i", "i2f", "bincast"} \/ InSlice(c)}     \* conversions and unary ops are always enumerated completely
+         /\ (cpid > 1 => "char" \in {cas.lt, cas.rt} \/ (cas.kind \in {"cast2", "bincast"} /\ cas.mt = "char"))
          /\ ck = <<>> /\ env = <<>> /\ genv = <<>> /\ mem = <<>> /\ cout = <<>> /\ cstatus = "gen" /\ cret = Zero /\ cfuel = 0 /\ depth = 0
 ONext == UNCHANGED ovars
 OSpec == OInit /\ [][ONext]_ovars
